@@ -355,11 +355,19 @@ class HashClient:
     def get(self, key, default=None, **kwargs):
         return self._run_cmd("get", key, default, default=default, **kwargs)
 
-    def gat(self, key, default=None, **kwargs):
-        return self._run_cmd("gat", key, default, default=default, **kwargs)
+    def gat(self, key, expire=0, default=None, **kwargs):
+        return self._run_cmd("gat", key, default, expire=expire, default=default, **kwargs)
 
-    def gats(self, key, default=None, **kwargs):
-        return self._run_cmd("gats", key, default, default=default, **kwargs)
+    def gats(self, key, expire=0, default=None, cas_default=None, **kwargs):
+        return self._run_cmd(
+            "gats",
+            key,
+            (default, cas_default),
+            expire=expire,
+            default=default,
+            cas_default=cas_default,
+            **kwargs,
+        )
 
     def incr(self, key, *args, **kwargs):
         return self._run_cmd("incr", key, None, *args, **kwargs)
@@ -417,8 +425,15 @@ class HashClient:
 
     get_multi = get_many
 
-    def gets(self, key, *args, **kwargs):
-        return self._run_cmd("gets", key, None, *args, **kwargs)
+    def gets(self, key, default=None, cas_default=None, **kwargs):
+        return self._run_cmd(
+            "gets",
+            key,
+            (default, cas_default),
+            default=default,
+            cas_default=cas_default,
+            **kwargs,
+        )
 
     def gets_many(self, keys, *args, **kwargs):
         return self.get_many(keys, gets=True, *args, **kwargs)
